@@ -261,40 +261,49 @@ package graphql
 //@   pure
 
 //@ func MarshalInt$1 [C08]
+//@   replay marshalInt.go.tmpl
 //@   callsite io.WriteString: requires numval(arg1) == i
 //@   ensures calls(WriteString) == 1 && calls(Write) == 0
 //@   nopanic
 //@ func MarshalInt64$1 [C08]
+//@   replay marshalInt.go.tmpl
 //@   callsite io.WriteString: requires numval(arg1) == i
 //@   ensures calls(WriteString) == 1 && calls(Write) == 0
 //@   nopanic
 //@ func MarshalInt32$1 [C08]
+//@   replay marshalInt.go.tmpl
 //@   callsite io.WriteString: requires numval(arg1) == i
 //@   ensures calls(WriteString) == 1 && calls(Write) == 0
 //@   nopanic
 //@ func MarshalUint$1 [C08]
+//@   replay marshalInt.go.tmpl
 //@   callsite io.WriteString: requires numval(arg1) == i
 //@   ensures calls(WriteString) == 1 && calls(Write) == 0
 //@   nopanic
 //@ func MarshalUint64$1 [C08]
+//@   replay marshalInt.go.tmpl
 //@   callsite io.WriteString: requires numval(arg1) == i
 //@   ensures calls(WriteString) == 1 && calls(Write) == 0
 //@   nopanic
 //@ func MarshalUint32$1 [C08]
+//@   replay marshalInt.go.tmpl
 //@   callsite io.WriteString: requires numval(arg1) == i
 //@   ensures calls(WriteString) == 1 && calls(Write) == 0
 //@   nopanic
 //@ func MarshalIntID$1 [C08]
+//@   replay marshalInt.go.tmpl
 //@   requires w != nil
 //@   callsite writeQuotedString: requires numval(arg1) == i
 //@   ensures calls(writeQuotedString) == 1 && calls(WriteString) == 0 && calls(Write) == 0
 //@   nopanic
 //@ func MarshalUintID$1 [C08]
+//@   replay marshalInt.go.tmpl
 //@   requires w != nil
 //@   callsite writeQuotedString: requires numval(arg1) == i
 //@   ensures calls(writeQuotedString) == 1 && calls(WriteString) == 0 && calls(Write) == 0
 //@   nopanic
 //@ func MarshalString$1 [C08]
+//@   replay marshalString.go.tmpl
 //@   requires w != nil
 //@   callsite writeQuotedString: requires arg1 == s
 //@   ensures calls(writeQuotedString) == 1 && calls(WriteString) == 0 && calls(Write) == 0
@@ -305,6 +314,7 @@ package graphql
 
 // Non-finite floats are reported as errors and nothing is written; finite ones are written once.
 //@ func MarshalFloatContext$1 [C08]
+//@   replay marshalFloat.go.tmpl
 //@   ghost inf = false
 //@   ghost nan = false
 //@   at `math.IsInf(f, 0)` ghost inf = callres0
